@@ -158,6 +158,56 @@ def job(j):
     return dict(viols=v, outcome=outcome)
 
 
+def stale_import_job(j):
+    """a new file B took the positions of a deleted file A and is recorded but not yet synced (its blocks carry A's hashes as the
+    description of what the parity held BEFORE); the parity already holds B.  B is lost.  A's old bytes are still around - in an
+    import directory, or as a look-alike inside the array with B's size and time-stamp.  fix must give back B's bytes (from parity)
+    or report it unrecoverable; A's bytes under B's name are unverified data accepted through the import shortcut"""
+    levels, source, seed = j
+    cfg = Config(levels=levels, ndisks=2)
+    v = []
+    where = "stale data of the deleted predecessor reachable through %s, levels=%d" % (source, levels)
+    with labmod.Lab(cfg, seed=seed) as L:
+        for d in cfg.disknames:
+            X.apply_op(L, ("write", d, "anchor", 700, 0))
+        X.apply_op(L, ("write", "d1", "pred", 2500, 0))
+        r = L.run("sync")
+        assert r.rc == 0, r.text()
+        a_bytes = L.read("d1", "pred")
+        L.rm("d1", "pred")
+        mtb = X.file_mtime_ns("succ", 2500, 0)
+        b_bytes = X.file_bytes(L, "succ", 2500, 0)
+        L.write("d1", "succ", b_bytes, mtb)
+        r = L.run("sync", "--test-kill-after-sync")
+        c = L.content()
+        fb = next((x for x in c.disks[b"d1"].files if x.sub == b"succ"), None)
+        if fb is None or all(st == C.BLK for st, _, _ in fb.blocks):
+            return dict(viols=[dict(kind="harness-state-not-reached", where=where)], outcome=("stale", "unreached", False))
+        imp = L.p("import")
+        os.makedirs(imp, exist_ok=True)
+        opts = ()
+        if source == "import-dir":
+            with open(os.path.join(imp, "old-copy"), "wb") as fh:
+                fh.write(a_bytes)
+            os.utime(os.path.join(imp, "old-copy"), ns=(mtb, mtb))
+            opts = ("-i", imp)
+        else:
+            L.write("d2", "lookalike/succ", a_bytes, mtb)      # same name, size and time-stamp as B, bytes of A
+        L.rm("d1", "succ")
+        res = L.run("fix", *opts)
+        e = L.snap().get("d1/succ")
+        unrec = bool(res.tags.get("status", "unrecoverable")) or os.path.lexists(L.p("d1", "succ.unrecoverable"))
+        if e is not None and e[0] == "f":
+            if e[3] == a_bytes:
+                v.append(dict(kind="stale-bytes-of-the-deleted-predecessor-accepted", where=where, rc=res.rc,
+                              imported=len(res.tags.get("hash_import")) if hasattr(res.tags, "get") else None))
+            elif e[3] != b_bytes and not unrec:
+                v.append(dict(kind="wrong-bytes-not-reported", where=where, rc=res.rc))
+        elif not unrec and res.rc == 0:
+            v.append(dict(kind="missing-not-reported", where=where))
+    return dict(viols=v, outcome=("stale", res.rc, unrec))
+
+
 def uuid_job(j):
     """the move shortcut (same inode, size, time-stamp) after the disks' UUID changed: inode numbers of the old file system mean nothing,
     a file that happens to own the number another look-alike file had must be read, not trusted"""
@@ -231,6 +281,17 @@ def run(ctx):
             ctx.sample(dict(levels=j[0], target=j[1], nsec=j[2], decoy=j[3], partial_source=j[4], flavour=j[5], outcome=r["outcome"]))
     if done < len(jobs):
         ctx.cap("deadline (%d of %d scenarios)" % (done, len(jobs)))
+    for lv in sorted(set(levels) | {2}):
+        for source in ("import-dir", "lookalike-in-array"):
+            r = stale_import_job((lv, source, ctx.seed))
+            evals += 3
+            ctx.nontrivial(("stale-import", lv, source))
+            ctx.outcome(r["outcome"])
+            for v in r["viols"]:
+                if v["kind"].startswith("harness"):
+                    raise RuntimeError("harness problem %r" % v)
+                ctx.violation("C19/stale-import/%s" % v["kind"], "%s: %s" % (v["kind"], v.get("where")),
+                              dict(stale_import=True, levels=lv, source=source, violation=v))
     for lv in levels:
         r = uuid_job((lv, False, ctx.seed))
         evals += 3
@@ -247,6 +308,11 @@ def run(ctx):
 
 
 def replay(r):
+    if r.get("stale_import"):
+        out = stale_import_job((r["levels"], r["source"], 0))
+        for v in out["viols"]:
+            print("  ", v)
+        return not out["viols"]
     if r.get("uuid_change"):
         out = uuid_job((r["levels"], False, 0))
         for v in out["viols"]:
